@@ -537,6 +537,119 @@ func (x *c03) gatedIntact() {
 	}
 }
 
+// gatedPacket is a packet whose Encode waits at a gate: it pins its sender inside Send,
+// i.e. inside sendMutex, for as long as the script wants.
+type gatedPacket struct {
+	packet.Generic
+	reached chan struct{}
+	gate    chan struct{}
+	once    sync.Once
+}
+
+func (g *gatedPacket) Encode(dst []byte) (int, error) {
+	g.once.Do(func() { close(g.reached) })
+	<-g.gate
+	return g.Generic.Encode(dst)
+}
+
+// closeBehindSend: a buffered DISCONNECT has been accepted (flush delay far away); a second
+// sender is held inside Send (variant "encode": in Encode; variant "carrier": in the carrier
+// Write of a large packet); a third goroutine calls Close.  Close must wait for the sender
+// (it shares sendMutex) and, once everything has returned, the DISCONNECT and the second
+// packet (its Send returned nil) must be on the wire: closing loses nothing accepted earlier.
+func (x *c03) closeBehindSend() {
+	c := x.c
+	r := c.Rng
+	for round := 0; round < 8; round++ {
+		x.n++
+		n := x.n
+		variant := []string{"encode", "carrier"}[round%2]
+		c.Emit("case %d closebehind round=%d", n, round)
+		m := newMemCarrier()
+		m.blockAtEnd = true
+		conn := transport.NewBaseConn(m)
+		conn.SetMaxWriteDelay(500 * time.Millisecond)
+		first := []packet.Generic{&packet.Disconnect{}, &packet.Puback{ID: rid(r)}, &packet.Pubcomp{ID: rid(r)}}[round%3]
+		reached := make(chan struct{})
+		gate := make(chan struct{})
+		var second packet.Generic
+		var secondEnc []byte
+		if variant == "encode" {
+			inner := genPacket(r, 2, 10+r.Intn(40))
+			secondEnc = encode(inner)
+			second = &gatedPacket{Generic: inner, reached: reached, gate: gate}
+		} else {
+			inner := publishFill("big", 'Z', 5000+r.Intn(3000))
+			secondEnc = encode(inner)
+			second = inner
+			var once sync.Once
+			m.hook = func(call string, k int) {
+				if call == "write" && k == 1 {
+					once.Do(func() { close(reached) })
+					<-gate
+				}
+			}
+		}
+		msg := ""
+		// a receiver is pending the whole time
+		rdone := make(chan struct{})
+		go func() { defer close(rdone); _, _ = conn.Receive() }()
+		e1 := conn.Send(first, true)
+		if e1 != nil {
+			msg = fmt.Sprintf("buffered Send failed: %v", e1)
+		}
+		var e2 error
+		sdone := make(chan struct{})
+		go func() { defer close(sdone); e2 = conn.Send(second, round%4 < 2) }()
+		select {
+		case <-reached:
+		case <-time.After(hangLimit):
+			msg = "the second sender never got into Send"
+		}
+		var cerr error
+		cdone := make(chan struct{})
+		go func() { defer close(cdone); cerr = conn.Close() }()
+		early := false
+		select {
+		case <-cdone:
+			early = true // Close came back although a Send was still inside the connection
+		case <-time.After(15 * time.Millisecond):
+		}
+		close(gate)
+		for _, ch := range []chan struct{}{sdone, cdone, rdone} {
+			select {
+			case <-ch:
+			case <-time.After(hangLimit):
+				if msg == "" {
+					msg = "a Send / Close / pending Receive did not return after the held sender was released"
+				}
+			}
+		}
+		if msg != "" {
+			c.Emit("direct c19_nohang %d FAIL closeBehindSend(%s): %s", n, variant, msg)
+			continue
+		}
+		c.Emit("direct c19_nohang %d ok", n)
+		wire := bytes.Join(m.snapshotWrites(), nil)
+		accepted := [][]byte{encode(first)}
+		if e2 == nil {
+			accepted = append(accepted, secondEnc)
+		}
+		w := wireClause(wire, accepted, nil, true)
+		switch {
+		case w != "":
+			c.Emit("direct c19_close_flushes %d FAIL closeBehindSend(%s): a buffered %s was accepted, another Send (returned %v) was in progress when Close (returned %v) was called: %s",
+				n, variant, first.Type(), e2, cerr, w)
+		case early:
+			c.Emit("direct c19_close_flushes %d FAIL closeBehindSend(%s): Close returned while a Send was still in progress", n, variant)
+		default:
+			c.Emit("direct c19_close_flushes %d ok", n)
+		}
+		c.Stat("close_flushes_checks", 1)
+		c.Stat("close_behind_send", 1)
+	}
+}
+
 func around(b []byte, i int) string {
 	j := i + 8
 	if j > len(b) {
@@ -606,6 +719,7 @@ func runC19(c *hx.Ctx) {
 		return
 	}
 	x.closeScripts()
+	x.closeBehindSend()
 	x.gatedIntact()
 	x.concurrentCases()
 	if c.Thorough() {
